@@ -14,6 +14,9 @@
 
 #define NOASAN __attribute__((no_sanitize_address))
 
+#ifndef SIM_FAILTOK
+#define SIM_FAILTOK ENABLE_FAILURE_TOKENS     /* the engine built against the flipped configuration overrides this */
+#endif
 #if defined(SIM_RNG)
 #include <sys/wait.h>
 #include "rngdev.hh"
@@ -464,7 +467,7 @@ static void check_fail_closed(Run &r, int t, int i, const HashCall &c, long size
     if (!c.ret_null)
       violation(nullptr, "failure-returns-pointer", t, i, vfmt("%s must return NULL on failure but returned \"%s\"", k, c.res.c_str()));
   } else {
-#if ENABLE_FAILURE_TOKENS
+#if SIM_FAILTOK
     if (!c.ret_null && (c.res.empty() || c.res[0] != '*'))
       violation(nullptr, "failure-returns-hash", t, i, vfmt("%s returned \"%s\" for a request that cannot produce a hash", k, c.res.c_str()));
 #else
@@ -1225,6 +1228,7 @@ static RunOut run_plan(const J &plan, uint64_t fill_override, bool use_override)
   res["seed"] = (long long)g_run_seed;
   res["prop"] = p;
   res["variant"] = VARIANT;
+  res["failure_tokens"] = (long long)SIM_FAILTOK;
   res["ok"] = !g_viol.set;
   if (g_viol.set) {
     J v = J::obj(); v["prop"] = g_viol.prop; v["cls"] = g_viol.cls; v["task"] = g_viol.task; v["op"] = g_viol.op; v["msg"] = g_viol.msg; v["more"] = (long long)g_viol_extra;
